@@ -102,6 +102,51 @@ Theorem C14_pattern_oracle_sound : forall p m out, prop_c14_pattern_b p m out = 
 Proof. exact pattern_oracle_sound. Qed.
 Print Assumptions C14_pattern_oracle_sound.
 
+
+(* ---- round 4: the NULL POINTER as file / function / category ------------------------------------
+   QMessageLogContext{nullptr, 0, nullptr, nullptr} is what release builds (QT_NO_MESSAGELOGCONTEXT), QML and
+   scripting callers and a default-constructed LogMessage deliver.  [rawmsg] carries the three C strings as
+   options; the checked model converts them as the code does (QString(p) / fromLatin1(p) / QByteArray(p)). *)
+(* a null pointer formats exactly as a pointer to "" - for every pattern text *)
+Theorem C14_null_pointer_formats_as_empty : forall p r, format_raw_c p (denull r) = format_raw_c p r.
+Proof. exact format_raw_null_is_empty. Qed.
+Print Assumptions C14_null_pointer_formats_as_empty.
+(* formatting a message with any combination of null pointers is total, within the resource bound *)
+Theorem C14_format_total_with_null_pointers : forall toks r,
+  len (cstr (r_file r)) <= INT_MAX -> len (cstr (r_func r)) <= INT_MAX - 1 -> fmt_bound toks (env_of_raw r) <= INT_MAX ->
+  exists out, format_c toks (env_of_raw r) = Some out /\ len out <= fmt_bound toks (env_of_raw r).
+Proof. exact (fun toks r Hf Hg Hb => format_raw_total toks r Hf Hg C14_cleanup_source_constants_admissible Hb). Qed.
+Print Assumptions C14_format_total_with_null_pointers.
+(* every placeholder has a value on the all-null context, and the ones that read a pointer (file, shortfile with
+   and without base dir, function, func, category) yield the empty string *)
+Theorem C14_every_placeholder_on_null_context : forall k r, r_file r = None -> r_func r = None -> r_cat r = None ->
+  exists v, value_c k (env_of_raw r) = Some v /\ (is_ptr_kind k = true -> v = []).
+Proof. exact (fun k r => null_placeholders k r C14_cleanup_source_constants_admissible). Qed.
+Print Assumptions C14_every_placeholder_on_null_context.
+(* PrettyFormatter on the raw category pointer: null is the non-default category with the empty name *)
+Theorem C14_pretty_total_raw_category : forall colorize maxw cw t (c : option qstr) msg,
+  maxw <= INT_MAX -> 0 <= cw <= INT_MAX -> len msg + len (cstr c) <= INT_MAX - 200 ->
+  exists out cw', pretty_c colorize maxw cw t (pretty_cat_of_ptr c) msg = Some (out, cw') /\ 0 <= cw' <= INT_MAX.
+Proof. exact pretty_raw_total. Qed.
+Print Assumptions C14_pretty_total_raw_category.
+
+(* ---- round 4: widths of ten and more digits -----------------------------------------------------
+   an all-digit width text is accepted iff its MATHEMATICAL value (no cut-off, no wrap-around) fits an int, and then
+   that value is the width: 4294967301 is never read as 5 *)
+Theorem C14_width_text_value : forall l, l <> [] -> forallb is_digit l = true ->
+  to_int l = if dec_value l 0 <=? INT_MAX then (dec_value l 0, true) else (0, false).
+Proof. exact to_int_digits. Qed.
+Print Assumptions C14_width_text_value.
+(* [fill]align + a width above INT_MAX, and width + '!' above INT_MAX, are not format specs at all *)
+Theorem C14_width_overflow_is_not_a_spec : forall a ds, is_anone (align_of a) = false -> ds <> [] ->
+  forallb is_digit ds = true -> INT_MAX < dec_value ds 0 -> parse_spec_c (a :: ds) = Some None.
+Proof. exact parse_spec_overflow_rejected. Qed.
+Print Assumptions C14_width_overflow_is_not_a_spec.
+Theorem C14_truncate_width_overflow_is_not_a_spec : forall ds, ds <> [] -> forallb is_digit ds = true ->
+  INT_MAX < dec_value ds 0 -> parse_spec_c (ds ++ [src_trunc_suffix]) = Some None.
+Proof. exact parse_spec_overflow_rejected_trunc. Qed.
+Print Assumptions C14_truncate_width_overflow_is_not_a_spec.
+
 (* non-vacuity: the model computes real results on real signatures *)
 Example C14_cleanup_nonvacuous :
   (* "std::vector<int> ns::C<T>::f(int) const [with T = int]" -> "ns::C::f" *)
@@ -117,3 +162,17 @@ Example C14_format_nonvacuous :
        mtime := []; mtid := []; mptr := []; attrs := [] |}
   = Some (A [91;32;119;97;114;110;105;110;103;93;104;101;108;108;111;32;119]).
 Proof. vm_compute. reflexivity. Qed.
+
+(* "%{shortfile}:%{line} %{message}" on (Warning, "hello", line 0) with file = function = category = nullptr -> ":0 hello" *)
+Example C14_null_context_nonvacuous :
+  format_raw_c (A [37;123;115;104;111;114;116;102;105;108;101;125;58;37;123;108;105;110;101;125;32;37;123;109;101;115;115;97;103;101;125])
+    {| r_mt := Warning; r_text := A [104;101;108;108;111]; r_file := None; r_func := None; r_cat := None; r_line := 0;
+       r_time := []; r_tid := []; r_ptr := []; r_attrs := [] |}
+  = Some (A [58;48;32;104;101;108;108;111]).
+Proof. vm_compute. reflexivity. Qed.
+(* "<4294967301" (2^32 + 5) is not a spec; "<5" is *)
+Example C14_width_overflow_nonvacuous :
+  parse_spec_c (A [60;52;50;57;52;57;54;55;51;48;49]) = Some None
+  /\ parse_spec_c (A [60;53]) = Some (Some {| fill := 32%N; al := ALeft; width := 5; mode := MNone |})
+  /\ dec_value (A [52;50;57;52;57;54;55;51;48;49]) 0 = 4294967301.
+Proof. vm_compute. repeat split; reflexivity. Qed.
